@@ -56,7 +56,7 @@ def gen_cases(tier, seed):
         if rng.random() < 0.35:
             cfgd["penalty"] = "DualNorm"
         cfgd["iteration_limit"] = int(rng.choice([60, 150]))
-        cfgd["rho"] = float(10.0 ** rng.uniform(-8, 1))
+        cfgd["rho"] = float(10.0 ** rng.uniform(-8, 1)) if rng.random() < 0.85 else float(10.0 ** rng.uniform(1, 20))
         case = work.mk_case(fam, [seed, k], cfgd)
         r = rng.random()
         if r < 0.75:
@@ -121,7 +121,7 @@ def run_case(case):
 def finalize(agg, tier):
     return {
         "rule": "QP/NLP/degenerate/infeasible/unbounded specs x six penalty policies (35% extra weight on DualNorm) x "
-                "controllers x Newton types x scalings x initial penalty 1e-8..10 x starting multipliers of norm 0 and "
+                "controllers x Newton types x scalings x initial penalty 1e-8..10 (15%: 10..1e20) x starting multipliers of norm 0 and "
                 "1e-2..1e6; 30% of the cases solve a second time on the same solver object (zero starting multipliers) and judge both solves; non-trivial = the penalty was raised at least once during the run; distinct by spec seed",
         "floors": {"trials": 10000, "penalty_increases": 200, "dualnorm_increases": 100, "contract_evaluations": 2000,
                    "penalty_Constant": 30, "vetoes": 50, "resolves_checked": 50},
